@@ -23,7 +23,7 @@ def strip(e):
 
 TU = """#include <nfl.hpp>
 typedef nfl::poly_p<uint32_t,16,2> PP;
-void force_instantiation(PP& a, PP const& b, PP&& c) { PP d(b); PP e(a); PP f(std::move(c)); PP g(nfl::uniform{}); a = b; a = std::move(f); a.poly_obj(); }
+void force_instantiation(PP& a, PP const& b, PP&& c) { PP d(b); PP e(a); PP f(std::move(c)); PP g(nfl::uniform{}); a = b; a = std::move(f); a.poly_obj(); a = nfl::uniform{}; }
 """
 
 def body_of(m):
@@ -170,9 +170,48 @@ def main():
             make_pointer()
             return "Definition gen_pp_detach {V : Type} (s : st V) (h : nat) : st V := if negb (sp_unique V s h) then sp_assign_clone V s h else s."
         emit("gen_pp_detach", "void detach() { if (!_p.unique()) { _p = make_pointer(*_p); } }", detach)
+        def touch_check():
+            """in the class template itself, _p is mentioned only by the special members read here, by the const poly_obj() and by the identity shortcut
+            _p.get() == o._p.get() of operator== / operator!=: every other member reaches the payload through poly_obj() (non-const: after detach())"""
+            tobjs = c2c.clang_ast("#include <nfl.hpp>\n", "poly_p", [])
+            rec = None
+            for o in tobjs:
+                for n in walk(o):
+                    if n.get("kind") == "ClassTemplateDecl" and n.get("name") == "poly_p":
+                        rs = [c for c in n.get("inner", []) if c.get("kind") == "CXXRecordDecl"]
+                        if rs: rec = rs[0]
+            if rec is None: raise Unsupported("class template poly_p not found")
+            def methods(x):
+                for c in x.get("inner", []):
+                    if c.get("kind") in ("CXXMethodDecl", "CXXConstructorDecl", "CXXDestructorDecl", "CXXConversionDecl"): yield c
+                    if c.get("kind") == "FunctionTemplateDecl":
+                        for q in c.get("inner", []):
+                            if q.get("kind") in ("CXXMethodDecl", "CXXConstructorDecl"): yield q
+            allowed = {"poly_p", "poly_p<T, Degree, NbModuli>", "poly_obj", "operator=", "operator==", "operator!=", "detach"}
+            for m in methods(rec):
+                uses = [q for q in walk(m) if q.get("kind") in ("MemberExpr", "CXXDependentScopeMemberExpr", "UnresolvedMemberExpr") and (q.get("name") == "_p" or q.get("member") == "_p")]
+                if not uses: continue
+                if m.get("name") not in allowed: raise Unsupported("member %s touches _p directly" % m.get("name"))
+                if m.get("name") == "operator=" and "poly_p<T, Degree, NbModuli>" not in m.get("type", {}).get("qualType", ""): raise Unsupported("a generic operator= touches _p directly")
+                if m.get("name") in ("operator==", "operator!="):
+                    # only as _p.get()
+                    def is_p(e):
+                        e = strip(e); return e.get("kind") in ("MemberExpr", "CXXDependentScopeMemberExpr", "UnresolvedMemberExpr") and (e.get("name") == "_p" or e.get("member") == "_p")
+                    gets = [q for q in walk(m) if q.get("kind") in ("MemberExpr", "CXXDependentScopeMemberExpr", "UnresolvedMemberExpr") and (q.get("name") == "get" or q.get("member") == "get") and q.get("inner") and is_p(q["inner"][0])]
+                    if len(gets) != len(uses): raise Unsupported("%s uses _p other than through get()" % m.get("name"))
+            # the generic assignments and every forwarding member go through poly_obj(): checked for the generic operator= explicitly
+            gens = [q for c in members if c.get("kind") == "FunctionTemplateDecl" and c.get("name") == "operator=" for q in c.get("inner", []) if q.get("kind") == "CXXMethodDecl" and body_of(q) is not None]
+            if not gens: raise Unsupported("generic operator= not instantiated")
+            for g_ in gens:
+                b = body_of(g_)
+                if b is None or len(b) != 2 or b[1].get("kind") != "ReturnStmt": raise Unsupported("generic operator= body")
+                a = strip(b[0])
+                lhs = strip(a["inner"][0]) if a.get("kind") == "BinaryOperator" else (strip(a["inner"][1]) if a.get("kind") == "CXXOperatorCallExpr" else None)
+                if lhs is None or not is_call_named(lhs, "poly_obj"): raise Unsupported("generic operator= does not assign through poly_obj()")
         def poly_obj():
             ms = [c for c in members if c.get("kind") == "CXXMethodDecl" and c.get("name") == "poly_obj" and body_of(c) is not None and "const" not in c["type"]["qualType"].split(")")[-1]]
             if len(ms) != 1: raise Unsupported("poly_obj not found")
+            touch_check()
             b = body_of(ms[0])
             if len(b) != 2 or not is_call_named(b[0], "detach") or b[1].get("kind") != "ReturnStmt": raise Unsupported("poly_obj body")
             r = strip(b[1]["inner"][0])
